@@ -223,7 +223,12 @@ impl Sim {
             }
         }
         // Non-members: every command known to the model but not committed here.
-        let outsiders: Vec<CmdId> = self.g.nodes.keys().filter(|k| !shadow.contains(*k)).copied().take(16).collect();
+        // Those a commit attempted since the last success first (they may sit in written but
+        // uncommitted segments), then a stride through the rest.
+        let mut outsiders: Vec<CmdId> = self.disk.get(r).map(|d| d.attempted.iter().flat_map(|s| s.iter().copied()).filter(|k| !shadow.contains(k)).collect::<BTreeSet<_>>().into_iter().rev().take(12).collect()).unwrap_or_default();
+        let rest: Vec<CmdId> = self.g.nodes.keys().filter(|k| !shadow.contains(*k)).copied().collect();
+        let step = (rest.len() / 16).max(1);
+        outsiders.extend(rest.into_iter().step_by(step).take(16));
         for id in outsiders {
             let a = self.addr(&id);
             if let Ok(Some(loc)) = with_rep!(&mut self.reps[r], rep => rep.locate(gid, a)) {
